@@ -61,7 +61,7 @@ func genSignCase(r *rand.Rand, forceMatrix, forcePlugins bool) (*signCase, error
 		if r.IntN(4) == 0 {
 			v = "" // a signed variable may well be empty
 		}
-		sc.Penv[fmt.Sprintf("PIPE_%d", i)] = v
+		sc.Penv[[]string{"PIPE_%d", "env_%d", "node_%d", "v%d", "e%d"}[r.IntN(5)][:0]+fmt.Sprintf([]string{"PIPE_%d", "env_%d", "node_%d", "v%d", "e%d"}[r.IntN(5)], i)] = v
 	}
 	for k := range cs.Env {
 		if r.IntN(3) == 0 {
